@@ -207,6 +207,9 @@ class Machine:
 
     def _color_matrix_light(self) -> None:
         light = self._get_named_light()
+        if light is not None and not isinstance(light, MatrixLight):
+            # Already reported by _matrix(); the script carries on.
+            return
         if light is not None:
             matrix = self._reg.matrix
             matrix = self._as_raw_matrix(matrix)
